@@ -27,6 +27,8 @@ type Extractor struct {
 	ExName string
 	// Required decides FileRequired per path (may return a symbolic bool).
 	Required func(path string) bool
+	// RequiredAPI, if set, decides FileRequired from the whole FileAPI (path and lazy Stat).
+	RequiredAPI func(api filesystem.FileAPI) bool
 	// OnExtract, if set, produces the result; the default is one package named after the path.
 	OnExtract func(ctx context.Context, in *filesystem.ScanInput) (inventory.Inventory, error)
 	Calls     []Call
@@ -45,6 +47,9 @@ func (e *Extractor) Requirements() *plugin.Capabilities { return &plugin.Capabil
 
 func (e *Extractor) FileRequired(api filesystem.FileAPI) bool {
 	e.Calls = append(e.Calls, Call{"required", api.Path()})
+	if e.RequiredAPI != nil {
+		return e.RequiredAPI(api)
+	}
 	return e.Required(api.Path())
 }
 
